@@ -469,9 +469,9 @@ def State.init (s : State) (opts : Nat) : State × Res × List Call :=
   else
     let n := s.opts
     let n := if n.noOpen then
-        { n with noOpen := decide ((opts &&& ZERO_MESSAGE_OPEN) ≠ 0), outOpts := removeBits n.outOpts ATOMIC_O_TRUNC }
+        { n with noOpen := decide ((opts &&& n.outOpts &&& ZERO_MESSAGE_OPEN) ≠ 0), outOpts := removeBits n.outOpts ATOMIC_O_TRUNC }
       else { n with outOpts := removeBits n.outOpts ZERO_MESSAGE_OPEN }
-    let n := if n.noOpendir then { n with noOpendir := decide ((opts &&& ZERO_MESSAGE_OPENDIR) ≠ 0) }
+    let n := if n.noOpendir then { n with noOpendir := decide ((opts &&& n.outOpts &&& ZERO_MESSAGE_OPENDIR) ≠ 0) }
       else { n with outOpts := removeBits n.outOpts ZERO_MESSAGE_OPENDIR }
     let n := if n.noWriteback then { n with outOpts := removeBits n.outOpts WRITEBACK_CACHE } else n
     let n := if !n.killprivV2 then { n with outOpts := removeBits n.outOpts HANDLE_KILLPRIV_V2 } else n
